@@ -25,6 +25,8 @@ struct Ctx<'a> {
     symbols: &'a [Op],
     depth: usize,
     ratio: u64,
+    /// do not extend a history that already has a finding
+    prune: bool,
 }
 
 thread_local! {
@@ -181,7 +183,8 @@ fn handle_finding(ctx: &Ctx, ops: &[Op], f: &Finding, scratch: &Scratch, rep: &m
     });
 }
 
-fn evaluate(ctx: &Ctx, ops: &[Op], scratch: &Scratch, rep: &mut Report) {
+/// Returns true when the history has a finding.
+fn evaluate(ctx: &Ctx, ops: &[Op], scratch: &Scratch, rep: &mut Report) -> bool {
     let out = run(scratch, ctx.ratio, ops);
     rep.evaluations += 1;
     rep.transitions += out.calls;
@@ -214,14 +217,16 @@ fn evaluate(ctx: &Ctx, ops: &[Op], scratch: &Scratch, rep: &mut Report) {
             StepRes::Applied => rep.count("steps_applied", 1),
         }
     }
-    if rep.evaluations % 1009 == 7 && (out.backups_before_final + ops.len()) % 3 != 0 {
+    let with_finding = out.finding.is_some();
+    let have = rep.samples.iter().filter(|s| s["finding"].is_null() != with_finding).count();
+    if rep.evaluations % 101 == 7 && have < rep.max_samples / 2 && (with_finding || out.backups_before_final >= 1) {
         rep.sample(json!({
             "alphabet": ctx.alpha.name,
             "ratio": ctx.ratio,
             "ops": show_ops(ops),
             "steps": format!("{:?}", out.steps),
             "finding": out.finding.as_ref().map(|f| f.oracle.clone()),
-            "reopened_state": out.model.show(),
+            "reference_state": out.model.show(),
             "fragments": out.fragments_final,
         }));
     }
@@ -229,14 +234,25 @@ fn evaluate(ctx: &Ctx, ops: &[Op], scratch: &Scratch, rep: &mut Report) {
         Some(f) => {
             rep.count("sequences_with_finding", 1);
             handle_finding(ctx, ops, f, scratch, rep);
+            true
         }
-        None => rep.count("sequences_all_oracles_pass", 1),
+        None => {
+            rep.count("sequences_all_oracles_pass", 1);
+            false
+        }
     }
 }
 
 fn explore(ctx: &Ctx, ops: &mut Vec<Op>, scratch: &Scratch, rep: &mut Report) {
-    evaluate(ctx, ops, scratch, rep);
+    let bad = evaluate(ctx, ops, scratch, rep);
     if ops.len() >= ctx.depth {
+        return;
+    }
+    if bad && ctx.prune {
+        let n = ctx.symbols.len() as u64;
+        let below: u64 = (1..=(ctx.depth - ops.len()) as u32).map(|k| n.pow(k)).sum();
+        rep.pruned_noops += below;
+        rep.count("subtrees_not_extended_below_a_history_with_a_finding", 1);
         return;
     }
     for s in ctx.symbols.iter() {
@@ -288,6 +304,28 @@ fn check_newlines(rep: &mut Report) {
             });
         }
     }
+}
+
+///////////////////////////////////////////// byte sweep ///////////////////////////////////////////
+
+/// Every non-newline character U+0001..U+00FF plus four characters with the remaining UTF-8 lead
+/// bytes, each as a whole string, at the start, in the middle and at the end of a string, as an
+/// info value and as an info key: one-edit histories (the final check reopens).
+fn byte_sweep_histories() -> Vec<Vec<Op>> {
+    let mut chars: Vec<char> = (1u32..=0xff).filter(|c| *c != 0x0a).map(|c| char::from_u32(c).unwrap()).collect();
+    chars.extend(['\u{800}', '\u{ffff}', '\u{10000}', '\u{10ffff}']);
+    let mut v = vec![];
+    for c in chars {
+        v.push(vec![Op::Add(c.to_string())]);
+        v.push(vec![Op::Add(format!("{c}a"))]);
+        v.push(vec![Op::Add(format!("a{c}b"))]);
+        v.push(vec![Op::Add(format!("a{c}"))]);
+        v.push(vec![Op::Rm(format!("a{c}"))]);
+        v.push(vec![Op::Info('I', format!("a{c}"))]);
+        v.push(vec![Op::Info(c, "x".into())]);
+        v.push(vec![Op::Info(c, "".into())]);
+    }
+    v
 }
 
 //////////////////////////////////////////// truncation ///////////////////////////////////////////
@@ -550,10 +588,12 @@ struct Item {
     depth: usize,
     ratio: u64,
     first: Option<usize>,
+    prune: bool,
 }
 
 enum Work {
     Seq(Item),
+    Bytes(Vec<Op>),
     Cut(String, u64, Vec<Op>),
     Newlines,
     Locks,
@@ -567,13 +607,14 @@ fn main() {
     vcore::quiet_panics();
     silence();
     options_selfcheck();
+    manimc::mani_sub::chain_selfcheck();
     if let Some(rf) = args.replay_case() {
         replay(&rf);
     }
     let thorough = args.tier_thorough();
     let plan = args
         .get("plan")
-        .unwrap_or(if thorough { "full:3,core:4,tiny:5" } else { "full:2,core:3" })
+        .unwrap_or(if thorough { "full:2,full:3:prune,core:4,tiny:5" } else { "full:2,core:3" })
         .to_string();
     let ratios: Vec<u64> = args
         .get("ratios")
@@ -581,34 +622,50 @@ fn main() {
         .split(',')
         .map(|s| s.parse().expect("ratio"))
         .collect();
-    let cut_depth = args.usize("cut-depth", if thorough { 3 } else { 2 });
-    let mut alphas: Vec<(Alphabet, Vec<Op>, usize)> = vec![];
-    for part in plan.split(',') {
-        let (n, d) = part.split_once(':').expect("plan entries are name:depth");
+    let cut_plan = args
+        .get("cut-plan")
+        .unwrap_or(if thorough { "core:2,tiny:3" } else { "core:2" })
+        .to_string();
+    let mut alphas: Vec<(Alphabet, Vec<Op>, usize, bool)> = vec![];
+    for part in plan.split(',').filter(|p| !p.is_empty()) {
+        let mut it = part.split(':');
+        let n = it.next().expect("plan entries are name:depth[:prune]");
+        let d = it.next().expect("plan entries are name:depth[:prune]");
+        let prune = it.next() == Some("prune");
         let a = Alphabet::by_name(n);
         let syms = a.symbols();
-        alphas.push((a, syms, d.parse().expect("depth")));
+        alphas.push((a, syms, d.parse().expect("depth"), prune));
     }
     let mut work: Vec<Work> = vec![Work::Newlines, Work::Locks];
-    for (ai, (_, syms, depth)) in alphas.iter().enumerate() {
+    for (ai, (_, syms, depth, prune)) in alphas.iter().enumerate() {
         for &ratio in ratios.iter() {
-            work.push(Work::Seq(Item { alpha: ai, depth: *depth, ratio, first: None }));
+            work.push(Work::Seq(Item { alpha: ai, depth: *depth, ratio, first: None, prune: *prune }));
             if *depth >= 1 {
                 for f in 0..syms.len() {
-                    work.push(Work::Seq(Item { alpha: ai, depth: *depth, ratio, first: Some(f) }));
+                    work.push(Work::Seq(Item { alpha: ai, depth: *depth, ratio, first: Some(f), prune: *prune }));
                 }
             }
         }
     }
+    let sweep = byte_sweep_histories();
+    let n_sweep = sweep.len();
+    for ops in sweep {
+        work.push(Work::Bytes(ops));
+    }
     for (name, ratio, ops) in curated_histories() {
         work.push(Work::Cut(format!("curated:{name}"), ratio, ops));
     }
-    let cut_alpha = Alphabet::core();
-    let cut_histories = all_sequences(&cut_alpha.symbols(), cut_depth);
-    let n_cut_histories = cut_histories.len();
-    for ops in cut_histories {
-        for &ratio in ratios.iter() {
-            work.push(Work::Cut("core-sequence".into(), ratio, ops.clone()));
+    let mut cut_bound = vec![];
+    for part in cut_plan.split(',').filter(|p| !p.is_empty()) {
+        let (n, d) = part.split_once(':').expect("cut-plan entries are name:depth");
+        let a = Alphabet::by_name(n);
+        let d: usize = d.parse().expect("depth");
+        let hs = all_sequences(&a.symbols(), d);
+        cut_bound.push(json!({"alphabet": a.to_json(), "max_depth": d, "histories_per_ratio": hs.len()}));
+        for ops in hs {
+            for &ratio in ratios.iter() {
+                work.push(Work::Cut(format!("{n}-sequence"), ratio, ops.clone()));
+            }
         }
     }
     // long items first
@@ -624,11 +681,19 @@ fn main() {
             Work::Newlines => check_newlines(rep),
             Work::Locks => check_locks(&scratch, rep),
             Work::Cut(name, ratio, ops) => cut_sweep(name, *ratio, ops, &scratch, rep),
+            Work::Bytes(ops) => {
+                let alpha = Alphabet { name: "byte-sweep", strings: vec![], keys: vec![], pair_strings: vec![] };
+                let ctx = Ctx { alpha: &alpha, symbols: &[], depth: 1, ratio: 1000, prune: false };
+                evaluate(&ctx, ops, &scratch, rep);
+                rep.count("byte_sweep_histories", 1);
+            }
             Work::Seq(item) => {
-                let (alpha, syms, _) = &alphas_ref[item.alpha];
-                let ctx = Ctx { alpha, symbols: syms, depth: item.depth, ratio: item.ratio };
+                let (alpha, syms, _, _) = &alphas_ref[item.alpha];
+                let ctx = Ctx { alpha, symbols: syms, depth: item.depth, ratio: item.ratio, prune: item.prune };
                 match item.first {
-                    None => evaluate(&ctx, &[], &scratch, rep),
+                    None => {
+                        evaluate(&ctx, &[], &scratch, rep);
+                    }
                     Some(f) => {
                         let mut ops = vec![syms[f].clone()];
                         explore(&ctx, &mut ops, &scratch, rep);
@@ -638,25 +703,31 @@ fn main() {
         }
     });
     total.bound = json!({
-        "sequence_runs": alphas.iter().map(|(a, s, d)| json!({
+        "sequence_runs": alphas.iter().map(|(a, s, d, p)| json!({
             "alphabet": a.to_json(),
             "max_depth": d,
+            "histories_with_a_finding_are_not_extended": p,
             "sequences_per_ratio": (0..=*d).map(|k| (s.len() as u64).pow(k as u32)).sum::<u64>(),
         })).collect::<Vec<_>>(),
         "rollover_ratios": ratios,
         "truncation": {
             "curated_histories": curated_histories().iter().map(|(n, r, o)| json!({"name": n, "ratio": r, "ops": show_ops(o)})).collect::<Vec<_>>(),
-            "all_core_sequences_up_to_depth": cut_depth,
-            "core_histories_per_ratio": n_cut_histories,
+            "all_sequences_of": cut_bound,
             "cuts": "every length 0..=len of the newest file MANIFEST",
+        },
+        "byte_sweep": {
+            "characters": "U+0001..U+00FF except newline, plus U+0800, U+FFFF, U+10000, U+10FFFF",
+            "placements": ["whole string", "first", "middle", "last (add)", "last (rm)", "last (info value)", "info key", "info key with empty value"],
+            "histories": n_sweep,
+            "ratio": 1000,
         },
         "newline_cases": newline_cases().len(),
         "lock_scenarios_two_processes": LOCK_SCENARIOS,
     });
-    total.rule = "every edit history of length <= depth over each listed alphabet, per rollover ratio, each executed from Manifest::open on a fresh tmpfs directory (no pruning; a history whose mid-sequence reopen already fails is cut short there and counted); after every step the live strs()/info() are compared with a BTreeSet/BTreeMap reference, at the end: second open refused, drop + open equals the reference, Manifest::verify silent, fragments chain (ManifestIterator). Truncation: for each listed history every byte length of MANIFEST is reopened. distinct states = (reference state, backups before the final reopen, fragments after it); non-trivial = at least one rollover happened during the history and the state is non-empty; outcomes = (result of the last step, failing oracle, state, fragment count) resp. (cut position class, reopen outcome class).".into();
+    total.rule = "every edit history of length <= depth over each listed alphabet, per rollover ratio, each executed from Manifest::open on a fresh tmpfs directory (no pruning, except in the runs marked histories_with_a_finding_are_not_extended, where the subtree below a history that already violates the property is skipped and its size is reported as pruned; a history whose mid-sequence reopen already fails is cut short there and counted); after every step the live strs()/info() are compared with a BTreeSet/BTreeMap reference, at the end: second open refused, drop + open equals the reference, Manifest::verify silent, fragments chain (ManifestIterator). Truncation: for each listed history every byte length of MANIFEST is reopened. distinct states = (reference state, backups before the final reopen, fragments after it); non-trivial = at least one rollover happened during the history and the state is non-empty; outcomes = (result of the last step, failing oracle, state, fragment count) resp. (cut position class, reopen outcome class).".into();
     total.assumptions = vec![
         "tmpfs directory, no faults: crash points and I/O errors are the crash_mani job's".into(),
-        "info keys are observable only by lookup: all ASCII keys plus three non-ASCII ones are asked, and size() is cross-checked".into(),
+        "info keys are observable only by lookup: all ASCII keys plus every non-ASCII key the history uses are asked, and size() is cross-checked".into(),
         "an edit adding and removing the same string is documented ambiguously; either reading is admitted as long as the reopened state agrees with the live one".into(),
     ];
     if total.counters.get("cut_control_failed").copied().unwrap_or(0) > 0 {
